@@ -49,7 +49,8 @@ EntryCase(sl, oo, i) ==
 
 Case(b, sl, oo) ==
   [by       |-> b,
-   sub      |-> oo.sub,
+   sub      |-> oo.sub = "sub",
+   variant  |-> oo.sub,
    slots    |-> sl,
    script   |-> oo.script,
    comment  |-> oo.arch.comment,
